@@ -356,6 +356,14 @@ fn f_shape(rng: &mut Rng, shapes: &[ReqShape]) -> ReqShape {
 
 fn blk_one(cx: &mut Ctx, sel: u8, rng: &mut Rng) {
     let shapes = blk::default_shapes();
+    // some clients write their block option values at a fixed width (leading zero bytes)
+    blk::BV_WIDTH.store([0usize, 0, 0, 0, 0, 1, 2, 3][(sel as usize / 6) % 8], std::sync::atomic::Ordering::Relaxed);
+    blk_one_inner(cx, sel, rng, &shapes);
+    blk::BV_WIDTH.store(0, std::sync::atomic::Ordering::Relaxed);
+}
+
+fn blk_one_inner(cx: &mut Ctx, sel: u8, rng: &mut Rng, shapes: &[blk::ReqShape]) {
+    let shapes = shapes.to_vec();
     match sel % 6 {
         0 | 1 => blk::run_hostile(cx, rng, &shapes),
         2 => {
